@@ -112,6 +112,18 @@ def scenarios(quick: bool) -> list[tuple[dict, int]]:
                     "probe": False,
                 }
                 sc.append((p, 1 if n <= 3 else 0))
+    # two callers with the very same frame (two Command objects), nothing ever comes back; the second gives up while still queued
+    for retries in (1, 3):
+        for to_b in (0.25, 0.7, 2.0):
+            for same in (None, 0):
+                p = {
+                    "qos_mode": False,
+                    "callers": [caller("rq30c9_01", retries=retries, timeout=20.0), caller("rq30c9_01", same_as=same, retries=retries, timeout=to_b)],
+                    "env": {"echo": False, "reply": False},
+                    "dev": (),
+                    "probe": False,
+                }
+                sc.append((p, 0))
     # a long-lived sender: 30 / 31 / 33 commands come and go one after another, then a backlog of six builds up at once behind the next
     # (whatever the queue uses to tell arrivals apart must not wear out or wrap with use)
     for done in (30, 31, 33):
